@@ -4,7 +4,7 @@
    input / capture functions (so any iteration order of the Python sets); `extract` instantiates them
    with the value table and node universe of a concrete source. *)
 From Coq Require Import List Bool Arith Lia.
-From IRV Require Import Base.Exn C18.Model C18.Spec C18.Struct C18.Proofs C18.Proofs2 C18.Proofs3 C18.Proofs4 C18.Proofs5 C18.Proofs6 C18.Proofs7.
+From IRV Require Import Base.Exn C18.Model C18.Spec C18.Struct C18.Proofs C18.Proofs2 C18.Proofs3 C18.Proofs4 C18.Proofs5 C18.Proofs6 C18.Proofs7 C18.Proofs8.
 Import ListNotations.
 
 (* The walk never runs out of the fuel the model gives it (so `Raise OtherError` in find_bounded is
@@ -474,4 +474,64 @@ Proof.
   { intros m v [H|[H|[H|[]]]] Hv; subst m; vm_compute in Hv; destruct Hv as [Hv|[]]; subst v; reflexivity. }
   intros m v [H|[H|[H|[]]]] Hv Ho; subst m; vm_compute in Hv; try contradiction.
   destruct Hv as [Hv|[Hv|[Hv|[]]]]; subst v; vm_compute; auto. vm_compute in Ho. discriminate.
+Qed.
+
+(* ------------------------------------------------------------------ accessors derived from the structure
+   The correspondence runs extract / analyze on Model.d_heap (value.graph, producer(), is_initializer() computed
+   from the graph tree) and pins the implementation's accessors against it on every generated graph.  Under the
+   decidable structural well-formedness wf_b (distinct node and graph ids; every definition site agrees with the
+   derived accessors — evaluated inside Coq on every generated case) the derived accessors are exactly
+   "the graph that defines v", "the node that outputs v", "v is in an initializer list". *)
+Theorem C18_derived_accessors :
+  forall root, wf_b root = true ->
+    (forall v g, In g (graphs_of root) -> (d_owner root v = Some (g_id g) <-> In v (defs_g g))) /\
+    (forall v, d_owner root v = None <-> forall g, In g (graphs_of root) -> ~ In v (defs_g g)) /\
+    (forall v n, In n (rec_nodes_g root) -> (d_prod root v = Some (n_id n) <-> In v (n_outs n))) /\
+    (forall v, d_prod root v = None <-> forall n, In n (rec_nodes_g root) -> ~ In v (n_outs n)) /\
+    (forall v, d_init root v = true <-> exists g, In g (graphs_of root) /\ In v (g_inits g)).
+Proof.
+  intros root Hwf. split; [intros v g; apply d_owner_spec; exact Hwf|].
+  split; [intros v; apply d_owner_none|]. split; [intros v n; apply d_prod_spec; exact Hwf|].
+  split; [intros v; apply d_prod_none | intros v; apply d_init_spec].
+Qed.
+Print Assumptions C18_derived_accessors.
+
+(* C18_captures_exact stated on the structure alone (the DESIGN's declarative spec): for a structurally
+   well-formed graph whose nested graphs only read values defined in themselves or in an enclosing graph
+   (sscoped_n), analyze_implicit_usage — run on the derived value.graph — maps every nested graph S, at every
+   depth, to exactly { v | v read by a node of S or deeper, v not defined in S or deeper }. *)
+Theorem C18_captures_exact_structural :
+  forall root, wf_b root = true -> Forall (sscoped_n [root]) (g_body root) ->
+    exists u, analyze (d_owner root) root = Ok u /\
+      (forall k, has_key k u = true <-> In k (map g_id (rec_graphs_g root))) /\
+      (forall S v, In S (rec_graphs_g root) ->
+         (In v (get u (g_id S)) <-> In v (uses_rec_g S) /\ ~ In v (defs_rec_g S))).
+Proof. exact analyze_exact_structural. Qed.
+Print Assumptions C18_captures_exact_structural.
+
+(* Three hypotheses of C18_semantics (distinct source nodes, nodes found under their ids, SSA for the source's
+   nodes) are consequences of wf_b for the derived producer. *)
+Theorem C18_structure_gives_ssa :
+  forall root, wf_b root = true ->
+    let univ := rec_nodes_g root in
+    let gn := map n_id (g_body root) in
+    NoDup gn /\
+    (forall m, In m (g_body root) -> lookup_node univ (n_id m) = Some m) /\
+    (forall v n, In n gn -> (d_prod root v = Some n <-> In v (u_nouts univ n))).
+Proof. exact structure_gives_ssa. Qed.
+Print Assumptions C18_structure_gives_ssa.
+
+(* Non-vacuity: the example graph ex_g is wf_b and structurally scoped; its derived table is ex_h. *)
+Example C18_structural_example :
+  wf_b ex_g = true /\ Forall (sscoped_n [ex_g]) (g_body ex_g) /\
+  heap_eqb (d_heap ex_g [(1, 1); (2, 2); (3, 3); (4, 4); (5, 5); (6, 6)] [1; 2; 3; 4; 5; 6]) ex_h = true.
+Proof.
+  split; [vm_compute; reflexivity|]. split; [|vm_compute; reflexivity].
+  constructor; [apply sscoped_n_eq; constructor|].
+  constructor; [|constructor; [apply sscoped_n_eq; constructor | constructor]].
+  apply sscoped_n_eq. constructor; [|constructor].
+  apply sscoped_g_eq. split; [simpl; intros [H|[]]; discriminate|].
+  cbn [g_body]. constructor; [|constructor]. split; [|apply sscoped_n_eq; constructor].
+  intros v Hv. simpl in Hv. destruct Hv as [Hv|[Hv|[]]]; subst v; exists ex_g; (split; [right; left; reflexivity|]);
+    vm_compute; tauto.
 Qed.
